@@ -200,14 +200,27 @@ def specs(draw):
             "widths": [draw(_i(4, 20)) * 50 for _ in range(ng)],
             "fdselect": draw(st.sampled_from([0, 3, 3])),
         }
+        if draw(st.booleans()):
+            # few distinct advances (half / full / proportional widths of a CJK font): the best default width of one font
+            # dict is then some other font dict's ordinary width
+            pal = draw(st.lists(_i(4, 20), min_size=2, max_size=3, unique=True))
+            spec["cid"]["widths"] = [draw(st.sampled_from(pal)) * 50 for _ in range(ng)]
         names = [".notdef"] + ["cid%05d" % i for i in range(1, ng)]
     else:
         c = draw(gen_t2.fonts(max_glyphs=6))
         spec["cff"] = c
         names = gen_t2.glyph_names(len(c["flat"]))
         spec["use_subrs"] = c["lsubrs"]["n"] + c["gsubrs"]["n"] < 1500 and draw(st.booleans())
+        if len(names) >= 3 and draw(_i(0, 1)) == 0:
+            # accent building through endchar's four optional operands (adx ady bchar achar, the Type 1 seac form): base and
+            # accent are addressed by StandardEncoding code, so two glyphs take standard names; with `explicit` the glyph's
+            # width differs from defaultWidthX and precedes the four operands
+            bi, ai = draw(st.permutations(range(1, len(names))))[:2]
+            names[bi], names[ai] = "A", "grave"
+            names.append("Agrave")
+            spec["seac"] = {"adx": draw(_i(-200, 400)), "ady": draw(_i(-100, 500)), "explicit": draw(_i(0, 3)) > 0, "width": draw(_i(5, 18)) * 50}
     ng = len(names)
-    weird = kind != "cid" and draw(_i(0, 3)) == 0
+    weird = kind != "cid" and "seac" not in spec and draw(_i(0, 3)) == 0
     if weird:
         # glyph names with characters that XML, file systems and case-insensitive comparison treat specially (they are
         # legal in post format 2 and in a CFF charset); names that differ only in such characters or only in case
@@ -651,6 +664,12 @@ def _base_bytes(spec):
     kw = {}
     if spec.get("use_subrs"):
         kw = dict(lsubrs=gen_t2.expand_subrs(c["lsubrs"]), gsubrs=gen_t2.expand_subrs(c["gsubrs"]))
+    if spec.get("seac"):
+        sc = spec["seac"]
+        w = sc["width"] if sc["explicit"] and sc["width"] != c["dwx"] else c["dwx"]
+        lead = [w - c["nwx"]] if w != c["dwx"] else []
+        progs = list(progs) + [lead + [sc["adx"], sc["ady"], 65, 193, "endchar"]]
+        widths["Agrave"] = max(0, min(16000, int(round(w))))
     return gen_t2.build_cff_font(dict(zip(names, progs)), widths, private=dict(defaultWidthX=c["dwx"], nominalWidthX=c["nwx"]), **kw)
 
 
